@@ -380,6 +380,12 @@ def unordered_rule(ctx, rep, cl, functions):
             if e.kind == "call":
                 t = e.a
                 nm = M.callee_name(t)
+                if nm in ("writelines", "extend") and t[2] and t[1][0] == "attr":
+                    # out.writelines(x for x in S) / lines.extend(S): the order written is the order of S
+                    n += 1
+                    bad = _set_typed(ctx, t[2][0], f)
+                    rep.ob(cl + ".unordered-into-ordered", "%s:%s" % (f.name, nm), not bad,
+                           "%s over a set-typed value %s in %s: the order of what is written depends on PYTHONHASHSEED" % (nm, show(t[2][0])[:80], f.qualname), W(f, e.node), key="%s.unordered-into-ordered|%s:%s" % (cl, f.name, nm))
                 if nm == "join" and t[2]:
                     n += 1
                     bad = _set_typed(ctx, t[2][0], f)
